@@ -527,6 +527,9 @@ type violation struct {
 	what   string
 	status int
 	codes  []int // acceptable JSON-RPC error codes if the answer carries one (nil: any answer with that status)
+	// any4xx: no documentation or specification fixes the status of this refusal (415 and 400 are what the
+	// SDK answers today; 406, 400, 415 would all be refusals): any client-error status is accepted.
+	any4xx bool
 }
 
 const (
@@ -540,12 +543,12 @@ func judge(s *GateScript, body []byte, limit int64, h http.Header) []violation {
 	var v []violation
 	// 1. a listener bound to a loopback address only serves requests whose Host names the local machine
 	if s.Local != "" && localAddrs[s.Local] && !hosts[s.Host] {
-		v = append(v, violation{"host", 403, nil})
+		v = append(v, violation{"host", 403, nil, false})
 	}
 	if s.Endpoint == "sse" {
 		if s.Verb == "POST" {
 			if ct, ok := h["Content-Type"]; !ok || !contentTypes[ct[0]] {
-				v = append(v, violation{"content-type", 415, nil})
+				v = append(v, violation{"content-type", 415, nil, true})
 			}
 		}
 		return v
@@ -558,21 +561,21 @@ func judge(s *GateScript, body []byte, limit int64, h http.Header) []violation {
 	}
 	if s.Verb == "GET" {
 		if !sseOK {
-			v = append(v, violation{"accept", 400, nil})
+			v = append(v, violation{"accept", 400, nil, true})
 		}
 		if hasPV && !slices.Contains(supported, pv) {
-			v = append(v, violation{"version-unsupported", 400, nil})
+			v = append(v, violation{"version-unsupported", 400, nil, false})
 		}
 		return v
 	}
 	if ct, ok := h["Content-Type"]; !ok || !contentTypes[ct[0]] {
-		v = append(v, violation{"content-type", 415, nil})
+		v = append(v, violation{"content-type", 415, nil, true})
 	}
 	if !jsonOK || !sseOK {
-		v = append(v, violation{"accept", 400, nil})
+		v = append(v, violation{"accept", 400, nil, true})
 	}
 	if limit > 0 && int64(len(body)) > limit {
-		v = append(v, violation{"size", 413, nil})
+		v = append(v, violation{"size", 413, nil, false})
 	}
 	// 5. protocol version: what the body says and what the header declares
 	var msg struct {
@@ -589,28 +592,28 @@ func judge(s *GateScript, body []byte, limit int64, h http.Header) []violation {
 	}
 	metaVer, _ := msg.Params.Meta["io.modelcontextprotocol/protocolVersion"].(string)
 	if hasPV && !slices.Contains(supported, pv) {
-		v = append(v, violation{"version-unsupported", 400, nil})
+		v = append(v, violation{"version-unsupported", 400, nil, false})
 	}
 	if metaVer != "" && !slices.Contains(supported, metaVer) {
-		v = append(v, violation{"version-unsupported", 400, []int{codeUnsupportedVer}})
+		v = append(v, violation{"version-unsupported", 400, []int{codeUnsupportedVer}, false})
 	}
 	declaredModern := metaVer >= modern || (hasPV && pv >= modern)
 	if declaredModern && s.Endpoint == "stateful" {
 		// 2026-07-28 is served by stateless endpoints only (C07's business; accepted as is)
-		v = append(v, violation{"modern-on-stateful", 400, nil})
+		v = append(v, violation{"modern-on-stateful", 400, nil, false})
 	}
 	if metaVer != "" && (!hasPV || pv != metaVer) {
-		v = append(v, violation{"version-mirror", 400, []int{codeHeaderMismatch}})
+		v = append(v, violation{"version-mirror", 400, []int{codeHeaderMismatch}, false})
 	}
 	if metaVer == "" && hasPV && pv >= modern {
 		// header declares the per-request protocol but the body carries no version to mirror
-		v = append(v, violation{"version-mirror", 400, []int{codeHeaderMismatch, codeInvalidParams}})
+		v = append(v, violation{"version-mirror", 400, []int{codeHeaderMismatch, codeInvalidParams}, false})
 	}
 	// 6. mirrored headers, only under 2026-07-28
 	if !(hasPV && pv >= modern && metaVer == pv) {
 		return v
 	}
-	mismatch := func(what string) { v = append(v, violation{what, 400, []int{codeHeaderMismatch}}) }
+	mismatch := func(what string) { v = append(v, violation{what, 400, []int{codeHeaderMismatch}, false}) }
 	if m, ok := h["Mcp-Method"]; !ok || m[0] != msg.Method {
 		mismatch("mcp-method")
 	}
@@ -645,6 +648,32 @@ func judge(s *GateScript, body []byte, limit int64, h http.Header) []violation {
 		}
 	}
 	return v
+}
+
+// exotic reports whether the (flawless) probe uses a form the SDK's own client never produces. The property
+// demands that bad requests are stopped and that the SDK client's requests pass; a server that is stricter
+// about such forms (literal media types only, canonical encodings only, declared lengths only, ...) satisfies
+// it, so for these a clean refusal is accepted next to being served.
+func (s *GateScript) exotic(h http.Header) bool {
+	for _, line := range h["Accept"] {
+		for _, item := range strings.Split(line, ",") {
+			if m := strings.TrimSpace(item); m != "application/json" && m != "text/event-stream" {
+				return true // wildcards, parameters, other media types, unusual case
+			}
+		}
+	}
+	if ct, ok := h["Content-Type"]; ok && ct[0] != "application/json" {
+		return true
+	}
+	if s.Chunked || (s.Modern && s.MetaVer < modern) {
+		return true // body of undeclared length; a legacy version inside the per-request _meta
+	}
+	for i, l := range annotated(s.Nodes) {
+		if i < len(s.ParamHdr) && s.ParamHdr[i] == "b64" && l.present && !refNeedsBase64(refCanonical(l.node)) {
+			return true // base64 wrapper around a value that does not need one
+		}
+	}
+	return false
 }
 
 // ---- execution ----
@@ -806,11 +835,13 @@ func runGatesInBubble(s GateScript) (res vt.Result) {
 			return
 		}
 		evs := memhttp.ParseSSE(sseGet.Written())
-		if len(evs) != 1 || evs[0].Name != "endpoint" {
-			res.Failf("harness: SSE GET did not start with an endpoint event: %q", sseGet.Written())
+		// (other events next to it - a keep-alive, a retry hint - do not spoil the set-up)
+		ep := slices.IndexFunc(evs, func(e memhttp.SSEvent) bool { return e.Name == "endpoint" })
+		if ep < 0 {
+			res.Failf("harness: SSE GET did not announce an endpoint event: %q", sseGet.Written())
 			return
 		}
-		target = evs[0].Data
+		target = evs[ep].Data
 		if !strings.HasPrefix(target, "/") {
 			target = "/sse" + target
 		}
@@ -876,7 +907,7 @@ func runGatesInBubble(s GateScript) (res vt.Result) {
 	if len(viol) > 0 {
 		matched := false
 		for _, v := range viol {
-			if status != v.status {
+			if status != v.status && !(v.any4xx && status >= 400 && status <= 499) {
 				continue
 			}
 			if v.codes == nil || (ans.code != nil && slices.Contains(v.codes, *ans.code)) {
@@ -906,6 +937,10 @@ func runGatesInBubble(s GateScript) (res vt.Result) {
 	}
 
 	// The request meets every precondition: it must be served and reach the handler.
+	if s.exotic(h) && status >= 400 && status <= 499 && !reached {
+		res.Class("exotic_valid_form_refused") // see exotic(): accepted, and nothing reached the server
+		return res
+	}
 	if s.Verb == "GET" {
 		if status != 200 || !strings.HasPrefix(ct, "text/event-stream") {
 			res.Failf("valid GET was answered HTTP %d (%s): %s\n  request: %s", status, ct, clip(ex.Written()), describe())
